@@ -44,6 +44,10 @@ pub struct Wire {
     pub write_err: bool,
     /// fail every write call after this many successful calls
     pub write_err_after: Option<u64>,
+    /// persistent back-pressure: Some(n) = the transport accepts n more bytes and then answers
+    /// Pending until the harness lifts the block (an event of its own, unlike the Pending answers of
+    /// the write modes, which are resolved at the next quiescence)
+    pub hard_budget: Option<usize>,
     pub write_waker: Option<Waker>,
     pub write_blocked: bool,
     pub pending_armed: bool,
@@ -68,6 +72,7 @@ impl Wire {
             write_mode: WriteMode::All,
             write_err: false,
             write_err_after: None,
+            hard_budget: None,
             write_waker: None,
             write_blocked: false,
             pending_armed: true,
@@ -154,6 +159,17 @@ impl AsyncWrite for MockWrite {
         }
         if buf.is_empty() {
             return Poll::Ready(Ok(0));
+        }
+        if let Some(b) = w.hard_budget {
+            if b == 0 {
+                w.write_blocked = true;
+                w.write_waker = Some(cx.waker().clone());
+                return Poll::Pending;
+            }
+            let n = b.min(buf.len());
+            w.hard_budget = Some(b - n);
+            w.out.extend_from_slice(&buf[..n]);
+            return Poll::Ready(Ok(n));
         }
         let mode = w.write_mode;
         let n = match mode {
